@@ -1,36 +1,9 @@
 import DoviModel.Proofs.DmData
+import DoviModel.Proofs.Mapping
 /-!
 # write → parse for `rpu_data_header`
 -/
 namespace Dovi
-
-theorem wcat_cons_ok {x : Res Bits} {xs : List (Res Bits)} {out : Bits} (h : wcat (x :: xs) = .ok out) :
-    ∃ a b, x = .ok a ∧ wcat xs = .ok b ∧ out = a ++ b := by
-  cases x with
-  | error => simp [wcat] at h
-  | panic => simp [wcat] at h
-  | ok a =>
-    cases hr : wcat xs with
-    | error => simp [wcat, hr, Res.bind] at h
-    | panic => simp [wcat, hr, Res.bind] at h
-    | ok b =>
-      simp only [wcat, hr, Res.bind] at h
-      injection h with h
-      exact ⟨a, b, rfl, rfl, h.symm⟩
-
-theorem wcat_nil_ok {out : Bits} (h : wcat [] = .ok out) : out = [] := by
-  simp only [wcat] at h; injection h with h; exact h.symm
-
-theorem wcat_append_ok {l1 l2 : List (Res Bits)} {out : Bits} (h : wcat (l1 ++ l2) = .ok out) :
-    ∃ a b, wcat l1 = .ok a ∧ wcat l2 = .ok b ∧ out = a ++ b := by
-  induction l1 generalizing out with
-  | nil => exact ⟨[], out, rfl, h, rfl⟩
-  | cons x xs ih =>
-    obtain ⟨a, b, hx, hrest, rfl⟩ := wcat_cons_ok (by simpa using h)
-    obtain ⟨a', b', h1, h2, rfl⟩ := ih hrest
-    refine ⟨a ++ a', b', ?_, h2, by simp⟩
-    subst hx
-    simp [wcat, h1, Res.bind]
 
 theorem readBit_wbool {b : Bool} {p : Bits} (r : Bits) (h : wbool b = .ok p) : readBit (p ++ r) = .ok (b, r) := by
   simp only [wbool] at h; injection h with h; subst h; rfl
